@@ -340,6 +340,7 @@ class Analyzer:
         self.site_nottag = {}       # callee id -> list of per-call-site {arg index: excluded variants}
         self.entry_bounds = {}      # closure id -> {param path: (lo, hi)}   numeric range of a by-value parameter at its only call site(s)
         self.site_bounds = {}       # closure id -> list of per-call-site {param path: (lo, hi)}
+        self.block_hooks = {}       # (fn id, bb) -> f(state): run when the block is entered (ghost snapshots for progress measures)
         self.site_facts = {}        # closure id -> list of per-call-site (facts, sum triples) over the closure's own variables (L2 = item, L1.k = k-th capture)
         self.entry_facts = {}       # closure id -> (facts, sum triples) assumed at its entry
         self.summaries = summaries if summaries is not None else {}
@@ -490,6 +491,89 @@ class Analyzer:
                     rf.append((y, pv, c2))
             if rf:
                 post.append(("optf", "Some", rf, R))
+
+    def value_copies(self, fn, depth=0):
+        """[(return path, parameter path)]: parts of the return value that are plain copies / moves of parts of a parameter on every
+        return path, read off the expression of the return place: tuples and enum constructors are descended into, `x.map(|v| ..)` on
+        a Result / Option composes with the copies of the closure, calls of local functions with theirs.  Used to carry what the
+        caller knows about an argument (e.g. the length of the remaining input) over to the result, also through generic helpers
+        whose own body says nothing about the type."""
+        key = ("copies", fn.id)
+        if key in self.refcache:
+            return self.refcache[key]
+        self.refcache[key] = []
+        out = []
+        if depth < 4:
+            try:
+                e = df.local_expr(fn, 0)
+                self._copies_of(fn, e, "L0", out, depth)
+            except RecursionError:
+                out = []
+        self.refcache[key] = out
+        return out
+
+    def _param_path(self, e):
+        """"L<i>.<fields>" when e is a field/downcast chain rooted at a parameter."""
+        parts = []
+        while isinstance(e, tuple) and e and e[0] in ("field", "downcast"):
+            parts.append((".%s" % e[2]) if e[0] == "field" else (".@%s" % e[2]))
+            e = e[1]
+        if isinstance(e, tuple) and e and e[0] == "param":
+            return "L%d" % e[1] + "".join(reversed(parts))
+        return None
+
+    def _copies_of(self, fn, e, rp, out, depth):
+        if not isinstance(e, tuple) or not e:
+            return
+        pp = self._param_path(e)
+        if pp is not None:
+            # only parameters that still hold what the caller passed: never assigned, not handed out mutably, not a `&mut`
+            n = int(_ROOT.match(pp).group(1))
+            d = df.defs_of(fn)
+            if not d.all(n) and n not in d.mut_borrowed and not fn.local_ty(n).startswith("&mut "):
+                out.append((rp, pp))
+            return
+        if e[0] == "agg":
+            if e[1] == "tuple":
+                for i, o in enumerate(e[3]):
+                    self._copies_of(fn, o, "%s.%d" % (rp, i), out, depth)
+            elif e[2] is not None and len(e[3]) >= 1:       # enum variant / struct constructor
+                for i, o in enumerate(e[3]):
+                    self._copies_of(fn, o, "%s.@%s.%d" % (rp, e[2], i), out, depth)
+            return
+        if e[0] == "call":
+            last = e[1].split("::")[-1]
+            if last == "map" and ("Result::<T, E>::map" in e[1] or "Option::<T>::map" in e[1]) and len(e[2]) == 2 and \
+                    isinstance(e[2][1], tuple) and e[2][1] and e[2][1][0] == "closure" and e[2][1][1] in self.prog.fns:
+                var = "Ok" if "Result" in e[1] else "Some"
+                src = self._param_path(e[2][0])
+                cl = self.prog.fns[e[2][1][1]]
+                if src is not None and cl.arg_count == 2:
+                    for crp, cap in self.value_copies(cl, depth + 1):
+                        if cap == "L2" or cap.startswith("L2."):
+                            out.append(("%s.@%s.0%s" % (rp, var, crp[2:]), "%s.@%s.0%s" % (src, var, cap[2:])))
+                return
+            if e[1] in self.prog.fns:
+                callee = self.prog.fns[e[1]]
+                args = [self._param_path(a) for a in e[2]]
+                for crp, cap in self.value_copies(callee, depth + 1):
+                    m = re.match(r"L(\d+)(.*)", cap)
+                    i = int(m.group(1)) - 1
+                    if 0 <= i < len(args) and args[i] is not None:
+                        out.append((rp + crp[2:], args[i] + m.group(2)))
+
+    def param_rooted(self, fn, v):
+        """Is v a value / length rooted at a parameter that is never re-assigned?"""
+        if v[0] not in ("v", "#"):
+            return False
+        m = _ROOT.match(v[1])
+        if not m:
+            return False
+        n = int(m.group(1))
+        if not (1 <= n <= fn.arg_count):
+            return False
+        d = df.defs_of(fn)
+        return not d.all(n) and n not in d.mut_borrowed
 
     def const_slice_len(self, fn, op, depth=0):
         """Number of elements when the operand is (a reference to) an array of constant length, possibly unsized into a slice."""
@@ -924,7 +1008,11 @@ class Analyzer:
                 x = ("v", A[1])
                 post.append(("condf", [(x, Z, r[1]), (Z, x, -r[0])], [], A[1]))
         elif name_is("<impl [T]>::strip_prefix", "<impl [T]>::strip_suffix") and A[0]:
-            post.append(("optf", "Some", [(("#", D + ".@Some.0"), ("#", A[0]), 0)], A[0]))
+            n = self.const_slice_len(fn, t["args"][1]) if nargs == 2 else None
+            if n:       # exactly the needle's length is taken off
+                post.append(("optf", "Some", [(("#", D + ".@Some.0"), ("#", A[0]), -n), (("#", A[0]), ("#", D + ".@Some.0"), n)], A[0]))
+            else:
+                post.append(("optf", "Some", [(("#", D + ".@Some.0"), ("#", A[0]), 0)], A[0]))
         elif name_is("<impl [T]>::starts_with", "<impl [T]>::ends_with") and nargs == 2 and A[0]:
             # a slice that starts / ends with an n-element needle has at least n elements
             n = self.const_slice_len(fn, t["args"][1])
@@ -979,8 +1067,16 @@ class Analyzer:
                         post.append(("optf", "Some", facts, A[0]))
                 if st.tag.get(A[0]) in ("Some", "None"):
                     post.append(("settag", st.tag[A[0]]))
+        elif name_is("Result::<T, E>::map") and nargs == 2 and A[0]:
+            e = df.operand_expr(fn, t["args"][1])
+            if isinstance(e, tuple) and e and e[0] == "closure" and e[1] in self.summaries and self.summaries[e[1]] is not None:
+                post.append(("map_payload", e[1], A[0], A[1], "Ok"))
         elif name_is("Option::<T>::ok_or_else", "Option::<T>::ok_or") and nargs == 2 and A[0]:
             post.append(("some_to_ok", A[0]))
+        elif name_is("Result::<T, E>::map_err") and nargs == 2 and A[0]:
+            post.append(("some_to_ok", A[0], "Ok", "Ok", "Err"))       # the Ok payload passes through unchanged
+        elif name_is("Result::<T, E>::ok") and nargs == 1 and A[0]:
+            post.append(("some_to_ok", A[0], "Ok", "Some", "None"))
         elif rp == "<I as core::iter::traits::collect::IntoIterator>::into_iter" and nargs == 1 and A[0]:
             # the blanket impl for iterators is the identity
             post.append(("alias", A[0]))
@@ -1025,7 +1121,7 @@ class Analyzer:
                 pre["try"] = st.copy()
             elif p[0] == "some_to_ok":
                 R = p[1]
-                sp = R + ".@Some.0"
+                sp = R + ".@%s.0" % (p[2] if len(p) > 2 else "Some")
                 keep = []
                 for v in st.vars():
                     if v[0] in ("v", "#") and State.under(v[1], sp):
@@ -1035,7 +1131,7 @@ class Analyzer:
                         for x_, c_ in st.inn.get(v, {}).items():
                             if x_ == Z or not State.under(x_[1], R):
                                 keep.append((x_, v, c_))
-                pre["s2o"] = (keep, list(st.optf.get((R, "Some")) or []), st.tag.get(R))
+                pre["s2o"] = (keep, list(st.optf.get((R, p[2] if len(p) > 2 else "Some")) or []), st.tag.get(R))
         def canon_facts(fs):
             out_ = []
             for f in fs:
@@ -1052,7 +1148,23 @@ class Analyzer:
         for p in post:
             kind = p[0]
             if kind == "optf":
-                st.optf[(D, p[1])] = list(p[2])
+                # relate the payload to the function's parameters as well: the variable a fact mentions may be dead by the time
+                # the variant is tested, the parameters are not
+                fs = list(p[2])
+                extra = []
+                for f in fs:
+                    if f[0] == "NE":
+                        continue
+                    x, y, c = f
+                    if x != Z and State.under(x[1], D) and y != Z and not State.under(y[1], D):
+                        for z, d in st.out.get(y, {}).items():
+                            if z != Z and self.param_rooted(fn, z) and not State.under(z[1], D):
+                                extra.append((x, z, c + d))
+                    if y != Z and State.under(y[1], D) and x != Z and not State.under(x[1], D):
+                        for z, d in st.inn.get(x, {}).items():
+                            if z != Z and self.param_rooted(fn, z) and not State.under(z[1], D):
+                                extra.append((z, y, d + c))
+                st.optf[(D, p[1])] = fs + [e for e in extra if e not in fs]
             elif kind == "condf":
                 st.condf[D] = (list(p[1]), list(p[2]))
             elif kind == "lenof":
@@ -1085,6 +1197,14 @@ class Analyzer:
                     cst = st.const_of(("v", R + ".start"))
                     if cst is not None:
                         st.eq(("#", D), ("#", S), -cst)
+                    else:
+                        # len(s[a..]) = len(s) - a: at least the lower bound of a is taken off; the exact relation is a sum
+                        lo = st.lb(("v", R + ".start"))
+                        if lo is not None and lo > 0:
+                            st.add(("#", D), ("#", S), -lo)
+                        sv = self.canon(st, (("v", R + ".start"), 0))
+                        if sv and sv[0] != Z:
+                            st.add_sum(("#", S), ("#", D), sv[0], sv[1])
                 elif rty.startswith("core::ops::range::RangeTo<") and R:
                     st.eq(("#", D), ("v", R + ".end"))
                 elif rty.startswith("core::ops::range::Range<") and R:
@@ -1121,7 +1241,8 @@ class Analyzer:
                         st2.tag[D] = "Continue"
             elif kind == "some_to_ok":
                 R = p[1]
-                sp, dp = R + ".@Some.0", D + ".@Ok.0"
+                v_src, v_dst, v_other = (p[2], p[3], p[4]) if len(p) > 2 else ("Some", "Ok", "Err")
+                sp, dp = R + ".@%s.0" % v_src, D + ".@%s.0" % v_dst
                 keep, fs, tg = pre["s2o"]
 
                 def ren2(tv, sp=sp, dp=dp):
@@ -1138,11 +1259,11 @@ class Analyzer:
                         continue
                     nf.append((a_, b_, f[2]))
                 if nf:
-                    st.optf[(D, "Ok")] = nf
-                if tg == "Some":
-                    st.tag[D] = "Ok"
-                elif tg == "None":
-                    st.tag[D] = "Err"
+                    st.optf[(D, v_dst)] = nf
+                if tg == v_src:
+                    st.tag[D] = v_dst
+                elif tg is not None:
+                    st.tag[D] = v_other
             elif kind == "summary":
                 self.apply_summary(fn, st, t, D, A, T, self.summaries[p[1]])
             elif kind == "range_next":
@@ -1150,6 +1271,13 @@ class Analyzer:
                     st.add(Z, ("v", p[1] + ".start"), -p[2])
             elif kind == "settag":
                 st.tag[D] = p[1]
+            elif kind == "map_payload":
+                # Ok(x) -> Ok(f(x)): the closure's summary with its item parameter bound to the payload
+                cid, R, C, var = p[1], p[2], p[3], p[4]
+                if R != D:
+                    self.apply_summary(fn, st, t, "%s.@%s.0" % (D, var), [C, "%s.@%s.0" % (R, var)], [None, None], self.summaries[cid])
+                    if st.tag.get(R):
+                        st.tag[D] = st.tag[R]
             elif kind == "closure_summary":
                 self.apply_summary(fn, st, t, D, [p[2]], [None], self.summaries[p[1]])
             elif kind == "alias":
@@ -1479,6 +1607,9 @@ class Analyzer:
     def transfer_block(self, fn, st, bb, obligations=None):
         st = st.copy()
         b = fn.blocks[bb]
+        hook = self.block_hooks.get((fn.id, bb)) if self.block_hooks else None
+        if hook is not None and not st.dead:
+            hook(st)
         for s in b["stmts"]:
             if st.dead:
                 break
@@ -1814,7 +1945,7 @@ class Analyzer:
                     pass
                 facts.append((x, y, c))
         optf = {k: v for k, v in acc.optf.items() if k[0] == "L0" or k[0].startswith("L0.")}
-        return {"facts": facts, "optf": optf, "tag": {p: t for p, t in acc.tag.items() if State.under(p, "L0")}}
+        return {"facts": facts, "optf": optf, "tag": {p: t for p, t in acc.tag.items() if State.under(p, "L0")}, "copies": self.value_copies(fn)}
 
     def apply_summary(self, fn, st, t, D, A, T, summ):
         def ren(v):
@@ -1857,6 +1988,11 @@ class Analyzer:
                 st.optf[(np, variant)] = nf
         for p, tg in summ["tag"].items():
             st.tag[D + p[2:]] = tg
+        for rp, ap in summ.get("copies", ()):
+            m = re.match(r"L(\d+)(.*)", ap)
+            i = int(m.group(1)) - 1
+            if i < len(A) and A[i] is not None and not State.under(A[i], D):
+                st.copy_prefix(A[i] + m.group(2), D + rp[2:])
 
 
 RANGE_CLOSURE_COMBINATORS = ("find", "any", "all", "position", "for_each", "try_for_each", "find_map", "map", "filter", "take_while", "skip_while")
